@@ -15,6 +15,7 @@ PROPS = {
 }
 
 MAX_CONFIRM = 12  # counterexamples replayed (and reported) per run; further ones are only counted
+CONFIRM_WALL_S = 420  # replay time after which further counterexamples are only listed (if one is already confirmed)
 
 ASSUMPTIONS = [
     "inputs satisfy the representation invariant (pos[0]=0, monotone, crd in range and strictly increasing per segment)",
@@ -173,6 +174,7 @@ def run(pid: str, tier: str, families=None, extra_requests=None, worker=None, va
     inconclusive = []
     rotating_cut = []
     unreplayed = []
+    confirm_s = 0.0
     stmts = reached = 0
     checked = {}
     grew_requests = set()
@@ -208,10 +210,13 @@ def run(pid: str, tier: str, families=None, extra_requests=None, worker=None, va
                 budget.append(entry)
         elif st == "violation":
             n_viol += 1
-            if n_viol > MAX_CONFIRM:
+            if n_viol > MAX_CONFIRM or (confirm_s > CONFIRM_WALL_S and rep.violations):
+                # enough replayed (count or replay time): the rest is listed, not replayed
                 unreplayed.append({"request": key, "dimvec": r["dimvec"], "kind": r["violation"]["kind"]})
                 continue
+            t_c = time.time()
             conf = confirm_fn(r, families)
+            confirm_s += time.time() - t_c
             record = {"name": key, "request": key, "assignment": r["request"]["assignment"],
                       "kind": r["violation"]["kind"], "program": r.get("program") or r.get("mode"),
                       "label0": (r["violation"]["label"] or [""])[0] if isinstance(r["violation"]["label"], list) else str(r["violation"]["label"])}
